@@ -191,7 +191,12 @@ def rule_attrs_property(ctx):
         fi = ctx.fn(q)
         ev = run(ctx, fi, mode='join')
         st = [e for p in ev.paths for e in p.events if e.kind == 'store_attr' and e.a == SELF and e.b == '_attrs']
-        if st and all(e.c[0] == 'call' and T.dotted(e.c[1]) == 'dict' for e in st):
+        def fresh_dict(t):
+            # dict(...) / {...}, possibly filled further (update, item stores) before it is stored
+            while t[0] in ('mut', 'setitem'):
+                t = t[1]
+            return (t[0] == 'call' and T.dotted(t[1]) == 'dict') or t[0] == 'dict'
+        if st and all(fresh_dict(e.c) for e in st):
             ctx.holds('R2', q.replace('dimarray.', '') + ': _attrs = dict(...)')
         else:
             ctx.violated('R2', fi, '_attrs', 'every constructor must store a fresh dict in _attrs (arrays must not share their metadata dictionary)')
